@@ -7,7 +7,9 @@ proof          coq/Props/C19.v (Loader/Proofs.v): for ALL definitions, `noEval` 
 correspondence harness/cmd/load (c19): a command substitution `touch <dir>/<field>` and a reference $CANARY_<field>
                (whose value is a second substitution) planted in every string-valued field; through LoadYAML,
                LoadMetadata, LoadWithoutEval, DAGStore.UpdateSpec / GetDetails / GetMetadata / List / ListPagination /
-               Grep / Find / TagList, the scheduler daemon's entry reader, and Load as positive control.  Observed:
+               Grep / Find / TagList, the scheduler daemon's entry reader, the display path of the web server (client
+               GetStatus / GetAllStatus / GetAllStatusPagination / GetStatusByRequestID / GetDAGSpec, graph construction
+               for validation, the API handlers GetDagDetails / ListDags), and Load as positive control.  Observed:
                canary files, os.Environ() difference - compared with the model's effect log for the same tree.
 monitor        the property itself: a non-executing entry point creates no canary file and leaves the environment
                as it was.
